@@ -88,6 +88,12 @@ func propagationRule(c *Ctx, rule string, fns []*ssa.Function, inScope func(call
 				ok, why = false, "the error result is discarded"
 			default:
 				ok, why = errorBranchReturnsNonNil(call)
+				if !ok && fnPkgPath(fn) == mainPkg {
+					// the command's exit-code helper: the error becomes a non-zero code (main's use of it is C09.3)
+					if ok2, why2 := errorEdgeReturnsNonZeroCode(call); ok2 {
+						ok, why = true, why2
+					}
+				}
 			}
 			if ok {
 				c.ok(rule, desc, why)
